@@ -83,14 +83,18 @@ def _task(args):
         return ("error", f"{type(e).__name__}: {e}\n{traceback.format_exc()}", E.stats, dict(core.FLAGS.obligations), [])
 
 
-def run(key, params, time_limit=600.0, flags=None, serial=False, task_paths=120):
+def run(key, params, time_limit=600.0, flags=None, serial=False, task_paths=120, in_pool=False):
     """explore harness `key` exhaustively (within time_limit). returns Result."""
     flags = flags or {}
     res = Result()
     t0 = time.time()
     deadline = t0 + time_limit
     if serial or JOBS <= 1:
-        out = _task((key, params, [[]], 10**9, time_limit, flags))
+        if in_pool and JOBS > 1:
+            # one task holding the whole exploration, executed by a pool worker (so that several explorations can overlap)
+            out = get_pool().apply_async(_task, ((key, params, [[]], 10**9, time_limit, flags),)).get()
+        else:
+            out = _task((key, params, [[]], 10**9, time_limit, flags))
         if out[0] == "error":
             res.errors.append(out[1])
             res.exhaustive = False
